@@ -2011,6 +2011,8 @@ def validate_path(M, exe):
         vals = snapped
     sub = M.subst(vals)
     rc, out, err = run_native(exe, vals)
+    if rc == 3 and M.opts.get('native_assume_false_ok'):
+        return 'skipped:native run left the assumed region (address-dependent tie-break in the code under test)'
     if rc != 0:
         return 'mismatch:native exit code %d (%s)' % (rc, err.strip().splitlines()[-1] if err.strip() else '')
     nat = [(t, x) for (t, x) in out if t in ('D', 'I')]
